@@ -2985,7 +2985,8 @@ class Entity(MutableMapping[str, str]):
 
         # Update the by_class/target dicts with our new value
         if key_fold == 'classname':
-            _remove_copyset(self.map.by_class, orig_val or '', self)
+            # The dicts are keyed by the casefolded value, the same way add_ent()/remove_ent() do.
+            _remove_copyset(self.map.by_class, (orig_val or '').casefold(), self)
             if self in self.map.entities:
                 self.map.by_class[str_val.casefold()].add(self)
             elif self is self.map.spawn:
@@ -2994,9 +2995,9 @@ class Entity(MutableMapping[str, str]):
                     raise ValueError('The worldspawn entity must remain worldspawn!')
                 self.map.by_class['worldspawn'].add(self)
         elif key_fold == 'targetname':
-            _remove_copyset(self.map.by_target, orig_val, self)
+            _remove_copyset(self.map.by_target, (orig_val or '').casefold() or None, self)
             if self in self.map.entities:
-                self.map.by_target[str_val].add(self)
+                self.map.by_target[str_val.casefold() or None].add(self)
         elif key_fold == 'nodeid':
             try:
                 node_id = int(orig_val)  # type: ignore  # Using as a cast
